@@ -1,7 +1,9 @@
 package c03
 
 import (
+	"strconv"
 	"strings"
+	"unicode/utf8"
 )
 
 // One field of a record as text.
@@ -27,6 +29,19 @@ var formats = []format{
 	{"nidx-out", []string{"--idkvp"}, []string{"--onidx", "--ofs", "space"}, "dkvp", "nidx"},
 	{"pprint", []string{"--ipprint"}, []string{"--opprint"}, "pprint", "pprint"},
 	{"csvlite", []string{"--icsvlite"}, []string{"--ocsvlite"}, "csvlite", "csvlite"},
+	// JSON readers -> non-JSON writers (the property's quantifier is "non-JSON output": the INPUT may be JSON). A
+	// JSON-read record always carries a key index (hashed), and its values are typed by the JSON decoder, not by the
+	// deferred from-data inference. "json-num": every value that is a legal RFC-8259 number is written as a bare
+	// number token, everything else as a JSON string; "json-str": every value is a JSON string; "jsonl": one-line objects.
+	{"json-num", []string{"--ijson"}, []string{"--odkvp"}, "json", "dkvp"},
+	{"json-str", []string{"--ijson"}, []string{"--ocsv"}, "jsonstr", "csv"},
+	{"jsonl", []string{"--ijsonl"}, []string{"--oxtab"}, "jsonl", "xtab"},
+}
+
+// shape grid: field x (and w) is a JSON collection; the batch "spelling" is the raw JSON text of the value.
+var shapeFormats = []format{
+	{"json-shape>dkvp", []string{"--ijson"}, []string{"--odkvp"}, "jsonraw", "dkvp"},
+	{"jsonl-shape>xtab", []string{"--ijsonl"}, []string{"--oxtab"}, "jsonraw", "xtab"},
 }
 
 func formatByName(n string) *format {
@@ -51,6 +66,11 @@ func inDomainOne(f string, v string) bool {
 		return f == "csv"
 	}
 	switch f {
+	case "json", "jsonstr", "jsonl":
+		// JSON text is Unicode: a byte string that is not valid UTF-8 is not representable as a JSON string
+		return utf8.ValidString(v)
+	case "jsonraw":
+		return true
 	case "dkvp":
 		return !strings.Contains(v, ",")
 	case "csv":
@@ -78,6 +98,9 @@ func inDomainOne(f string, v string) bool {
 }
 
 func (f *format) inDomain(v string) bool {
+	if f.in == "jsonraw" {
+		return true // v is the raw JSON text of a collection whose leaves are chosen inside the domain of both shape writers
+	}
 	return inDomainOne(f.in, v) && inDomainOne(f.out, v)
 }
 
@@ -176,8 +199,243 @@ func encode(f string, recs [][]kv) string {
 			}
 			sb.WriteByte('\n')
 		}
+	case "json", "jsonstr", "jsonl":
+		return encodeJSON(f, recs, nil)
 	}
 	return sb.String()
+}
+
+// isJSONNumber: the RFC-8259 number grammar  -?(0|[1-9][0-9]*)(\.[0-9]+)?([eE][+-]?[0-9]+)?
+func isJSONNumber(s string) bool {
+	i, n := 0, len(s)
+	if i < n && s[i] == '-' {
+		i++
+	}
+	if i >= n {
+		return false
+	}
+	if s[i] == '0' {
+		i++
+	} else if s[i] >= '1' && s[i] <= '9' {
+		for i < n && s[i] >= '0' && s[i] <= '9' {
+			i++
+		}
+	} else {
+		return false
+	}
+	if i < n && s[i] == '.' {
+		i++
+		j := i
+		for i < n && s[i] >= '0' && s[i] <= '9' {
+			i++
+		}
+		if i == j {
+			return false
+		}
+	}
+	if i < n && (s[i] == 'e' || s[i] == 'E') {
+		i++
+		if i < n && (s[i] == '+' || s[i] == '-') {
+			i++
+		}
+		j := i
+		for i < n && s[i] >= '0' && s[i] <= '9' {
+			i++
+		}
+		if i == j {
+			return false
+		}
+	}
+	return i == n
+}
+
+// jsonString: RFC-8259 string token for a valid-UTF-8 text (control characters as \u00XX).
+func jsonString(v string) string {
+	var sb strings.Builder
+	sb.WriteByte('"')
+	for i := 0; i < len(v); i++ {
+		c := v[i]
+		switch {
+		case c == '"':
+			sb.WriteString("\\\"")
+		case c == '\\':
+			sb.WriteString("\\\\")
+		case c == '\n':
+			sb.WriteString("\\n")
+		case c == '\t':
+			sb.WriteString("\\t")
+		case c < 0x20:
+			sb.WriteString("\\u00")
+			sb.WriteByte("0123456789abcdef"[c>>4])
+			sb.WriteByte("0123456789abcdef"[c&15])
+		default:
+			sb.WriteByte(c)
+		}
+	}
+	sb.WriteByte('"')
+	return sb.String()
+}
+
+// encodeJSON writes the records as JSON text. raw names a set of field names whose value text already IS JSON (shape grid).
+func encodeJSON(f string, recs [][]kv, raw map[string]bool) string {
+	var sb strings.Builder
+	oneLine := f == "jsonl"
+	if !oneLine {
+		sb.WriteString("[\n")
+	}
+	for ri, r := range recs {
+		sb.WriteByte('{')
+		for i, p := range r {
+			if i > 0 {
+				sb.WriteString(", ")
+			}
+			sb.WriteString(jsonString(p.k))
+			sb.WriteString(": ")
+			switch {
+			case raw[p.k]:
+				sb.WriteString(p.v)
+			case f != "jsonstr" && isJSONNumber(p.v):
+				sb.WriteString(p.v)
+			default:
+				sb.WriteString(jsonString(p.v))
+			}
+		}
+		sb.WriteByte('}')
+		if !oneLine && ri < len(recs)-1 {
+			sb.WriteByte(',')
+		}
+		sb.WriteByte('\n')
+	}
+	if !oneLine {
+		sb.WriteString("]\n")
+	}
+	return sb.String()
+}
+
+// ---- shape grid: a JSON value tree with the exact token text of its leaves
+
+type jval struct {
+	kind  byte   // 'l' leaf, 'a' array, 'm' map
+	text  string // leaf: the text the value has (string content, or the number/boolean token itself)
+	keys  []string
+	elems []*jval
+}
+
+// parseRaw parses the JSON subset the check itself generates (shapes.go): arrays, maps with plain keys, string
+// tokens as written by jsonString, bare number/boolean tokens.
+func parseRaw(s string) *jval {
+	v, rest := parseRawAt(s)
+	if v == nil || strings.TrimSpace(rest) != "" {
+		panic("c03: parseRaw cannot parse " + s)
+	}
+	return v
+}
+
+func parseRawAt(s string) (*jval, string) {
+	s = strings.TrimLeft(s, " ")
+	if s == "" {
+		return nil, s
+	}
+	switch s[0] {
+	case '[':
+		v := &jval{kind: 'a'}
+		s = strings.TrimLeft(s[1:], " ")
+		for s != "" && s[0] != ']' {
+			var e *jval
+			e, s = parseRawAt(s)
+			if e == nil {
+				return nil, s
+			}
+			v.elems = append(v.elems, e)
+			s = strings.TrimLeft(s, " ")
+			if s != "" && s[0] == ',' {
+				s = s[1:]
+			}
+			s = strings.TrimLeft(s, " ")
+		}
+		if s == "" {
+			return nil, s
+		}
+		return v, s[1:]
+	case '{':
+		v := &jval{kind: 'm'}
+		s = strings.TrimLeft(s[1:], " ")
+		for s != "" && s[0] != '}' {
+			var k, e *jval
+			k, s = parseRawAt(s)
+			s = strings.TrimLeft(s, " ")
+			if k == nil || s == "" || s[0] != ':' {
+				return nil, s
+			}
+			e, s = parseRawAt(s[1:])
+			if e == nil {
+				return nil, s
+			}
+			v.keys = append(v.keys, k.text)
+			v.elems = append(v.elems, e)
+			s = strings.TrimLeft(s, " ")
+			if s != "" && s[0] == ',' {
+				s = s[1:]
+			}
+			s = strings.TrimLeft(s, " ")
+		}
+		if s == "" {
+			return nil, s
+		}
+		return v, s[1:]
+	case '"':
+		var sb strings.Builder
+		i := 1
+		for i < len(s) && s[i] != '"' {
+			if s[i] == '\\' && i+1 < len(s) {
+				switch s[i+1] {
+				case 'n':
+					sb.WriteByte('\n')
+				case 't':
+					sb.WriteByte('\t')
+				case 'u':
+					n, _ := strconv.ParseUint(s[i+2:i+6], 16, 32)
+					sb.WriteRune(rune(n))
+					i += 4
+				default:
+					sb.WriteByte(s[i+1])
+				}
+				i += 2
+				continue
+			}
+			sb.WriteByte(s[i])
+			i++
+		}
+		if i >= len(s) {
+			return nil, ""
+		}
+		return &jval{kind: 'l', text: sb.String()}, s[i+1:]
+	}
+	i := 0
+	for i < len(s) && !strings.ContainsRune(",]} :", rune(s[i])) {
+		i++
+	}
+	if i == 0 {
+		return nil, s
+	}
+	return &jval{kind: 'l', text: s[:i]}, s[i:]
+}
+
+// flattenRef: the documented key-spreading of flatten-unflatten.md: map keys and 1-up array indices are joined to
+// the field name with the separator, depth first, in the value's own order.
+func flattenRef(name string, v *jval, sep string, out *[]kv) {
+	switch v.kind {
+	case 'l':
+		*out = append(*out, kv{name, v.text})
+	case 'a':
+		for i, e := range v.elems {
+			flattenRef(name+sep+strconv.Itoa(i+1), e, sep, out)
+		}
+	case 'm':
+		for i, e := range v.elems {
+			flattenRef(name+sep+v.keys[i], e, sep, out)
+		}
+	}
 }
 
 // parseCSV: RFC-4180 rows (quotes, doubled quotes, embedded separators and line breaks).
